@@ -3,6 +3,12 @@ import FcpptProofs.C03.NextArg
 import FcpptProofs.C03.Construct
 import FcpptProofs.C03.Term
 import FcpptProofs.C03.Help
+import FcpptProofs.C03.Fuel
+import FcpptProofs.C03.Labels
+import FcpptProofs.C03.Names
+import FcpptProofs.C03.Leaves
+import FcpptProofs.C03.Index
+import FcpptProofs.C03.Shape
 /-!
 # C03 — property theorems (see notes/C03.md for the clause-by-clause coverage)
 
@@ -104,8 +110,8 @@ theorem sum_rollback {f : Nat} {l : String} {a b : OP} {st : List Arg} {c : Ctx}
     parse (f + 1) (.sum l a b) st c = .ok (st2, [(l, .right (.recd r2))], lg2) := by
   cases e with
   | diverge => exact absurd rfl he
-  | other => simp only [parse, ha, hb]
-  | missing m => simp only [parse, ha, hb]
+  | other m => simp only [parse, ha, hb]
+  | missing m t => simp only [parse, ha, hb]
 
 /-- sum: both fail ⇒ `missing` only if both are `missing` -/
 theorem sum_both_fail {f : Nat} {l : String} {a b : OP} {st : List Arg} {c : Ctx} {e1 e2 : PErr}
@@ -113,28 +119,28 @@ theorem sum_both_fail {f : Nat} {l : String} {a b : OP} {st : List Arg} {c : Ctx
     parse (f + 1) (.sum l a b) st c = .error (combineErrors e1 e2) := by
   cases e1 with
   | diverge => exact absurd rfl h1
-  | other => simp only [parse, ha, hb]
-  | missing m => simp only [parse, ha, hb]
+  | other m => simp only [parse, ha, hb]
+  | missing m t => simp only [parse, ha, hb]
 
 /-- optional is transactional (after fix 6e48692): an inner `missing` — even one noticed after arguments were
 consumed — gives back the state exactly as it was and logs nothing; `other` errors are not swallowed -/
 theorem optional_missing_vs_other (f : Nat) (q : OP) (st : List Arg) (c : Ctx) :
-    (∀ m, parse f q st c = .error (.missing m) →
+    (∀ m t, parse f q st c = .error (.missing m t) →
       parse (f + 1) (.optional q) st c = .ok (st, q.labels.map fun l => (l, .none), [])) ∧
-    (parse f q st c = .error .other → parse (f + 1) (.optional q) st c = .error .other) ∧
+    (∀ t, parse f q st c = .error (.other t) → parse (f + 1) (.optional q) st c = .error (.other t)) ∧
     (∀ st' r lg, parse f q st c = .ok (st', r, lg) →
       parse (f + 1) (.optional q) st c = .ok (st', r.map fun (l, v) => (l, .some v), lg)) := by
-  refine ⟨fun m h => ?_, fun h => ?_, fun st' r lg h => ?_⟩ <;> simp only [parse, h]
+  refine ⟨fun m t h => ?_, fun t h => ?_, fun st' r lg h => ?_⟩ <;> simp only [parse, h]
 
 /-- the defect repaired by 6e48692, as a regression example: `optional(switch f * argument a)` on `["--f"]`
 keeps `--f` in the state (so that `parse` reports the leftover) instead of dropping it -/
-example : parse 10 (.optional (.prod (OP.switch "a" none "f") (.arg "b" .int))) [(0, "--f")] [] =
+example : parse 10 (.optional (.prod (OP.switch "a" none "f") (.arg "b" .int "b_arg" none))) [(0, "--f")] [] =
     .ok ([(0, "--f")], [("a", .none), ("b", .none)], []) := by rfl
 
 /-- `many` is transactional (after fix 6e48692): the state it returns is exactly the state on which the inner
 parser reports `missing` — not one from which the failed last attempt has already taken arguments -/
 theorem many_stops_at_missing : ∀ (f : Nat) (q : OP) (st : List Arg) (c : Ctx) {st' : List Arg} {r : Rec} {lg : Log},
-    parse f (.many q) st c = .ok (st', r, lg) → ∃ g m, parse g q st' c = .error (.missing m) := by
+    parse f (.many q) st c = .ok (st', r, lg) → ∃ g m t, parse g q st' c = .error (.missing m t) := by
   intro f
   induction f with
   | zero => intro q st c st' r lg h; simp [parse] at h
@@ -144,8 +150,8 @@ theorem many_stops_at_missing : ∀ (f : Nat) (q : OP) (st : List Arg) (c : Ctx)
     cases hq : parse f q st c with
     | error e =>
       cases e with
-      | missing m => simp [hq] at h; obtain ⟨rfl, _, _⟩ := h; exact ⟨f, m, hq⟩
-      | other => simp [hq] at h
+      | missing m t => simp [hq] at h; obtain ⟨rfl, _, _⟩ := h; exact ⟨f, m, t, hq⟩
+      | other t => simp [hq] at h
       | diverge => simp [hq] at h
     | ok t =>
       obtain ⟨st1, r1, lg1⟩ := t
@@ -188,6 +194,19 @@ theorem flags_never_positional {st : List Arg} {c : Ctx} {x z : List Arg} {y : A
       | cons d r => by_cases hd : d = '-' <;> simp [hd] at this
     · simp [hc]
 
+/-- the public `fcppt::options::is_option` (a leading dash) and the internal `is_flag` agree on what is not positional -/
+theorem is_option_iff_is_flag (s : String) : flagLike s = (isFlag s).isSome := by
+  unfold flagLike isFlag
+  cases hl : s.toList with
+  | nil => simp
+  | cons ch rest =>
+    by_cases hc : ch = '-'
+    · subst hc
+      cases rest with
+      | nil => simp
+      | cons d r => by_cases hd : d = '-' <;> simp [hd]
+    · simp [hc]
+
 /-- **an option's value is never taken as a positional argument**: if the tokens before `n` read as complete
 flags / option-value pairs and `n` is an option name of the context, the token right after `n` is not what
 `next_arg` returns -/
@@ -200,10 +219,10 @@ theorem option_value_never_positional {st : List Arg} {c : Ctx} {x0 z : List Arg
   rw [this, skipped_append c _ _ hx] at h1
   simp [skipped, hn] at h1
 
-/-- `argument::parse` consumes exactly what `next_arg` finds -/
-theorem argument_takes_next_arg {f : Nat} {l : String} {ty : VTy} {st : List Arg} {c : Ctx} {st' : List Arg} {r : Rec} {lg : Log}
-    (h : parse (f + 1) (.arg l ty) st c = .ok (st', r, lg)) :
-    ∃ x y z, splitNext st c = some (x, y, z) ∧ st' = x ++ z ∧ lg = [(y.1, l)] ∧ convert ty y.2 = some ((r.map Prod.snd).headD .unit) := by
+/-- `argument::parse` consumes exactly what `next_arg` finds, and its record is that token's conversion -/
+theorem argument_takes_next_arg {f : Nat} {l : String} {ty : VTy} {nm : String} {help : Option String} {st : List Arg} {c : Ctx}
+    {st' : List Arg} {r : Rec} {lg : Log} (h : parse (f + 1) (.arg l ty nm help) st c = .ok (st', r, lg)) :
+    ∃ x y z v, splitNext st c = some (x, y, z) ∧ st' = x ++ z ∧ lg = [(y.1, l)] ∧ convert ty y.2 = some v ∧ r = [(l, v)] := by
   simp only [parse, popArg] at h
   cases hs : splitNext st c with
   | none => simp [hs] at h
@@ -214,17 +233,142 @@ theorem argument_takes_next_arg {f : Nat} {l : String} {ty : VTy} {st : List Arg
     · rename_i v hv
       simp at h
       obtain ⟨rfl, rfl, rfl⟩ := h
-      exact ⟨x, y, z, rfl, rfl, rfl, by simpa using hv⟩
+      exact ⟨x, y, z, v, rfl, rfl, rfl, hv, rfl⟩
     · cases h
+
+/-- … and it fails with a `missing_error` (the state untouched) exactly when there is no positional argument, with an
+`other_error` exactly when the positional argument does not convert -/
+theorem argument_failures {f : Nat} {l : String} {ty : VTy} {nm : String} {help : Option String} {st : List Arg} {c : Ctx} :
+    ((∃ m t, parse (f + 1) (.arg l ty nm help) st c = .error (.missing m t)) ↔ splitNext st c = none) ∧
+    ((∃ t, parse (f + 1) (.arg l ty nm help) st c = .error (.other t)) ↔
+      ∃ x y z, splitNext st c = some (x, y, z) ∧ convert ty y.2 = none) ∧
+    (∀ m t, parse (f + 1) (.arg l ty nm help) st c = .error (.missing m t) → m = st) := by
+  simp only [parse, popArg]
+  cases hs : splitNext st c with
+  | none => simp
+  | some t =>
+    obtain ⟨x, y, z⟩ := t
+    simp only [Option.map_some]
+    cases hv : convert ty y.2 with
+    | some v =>
+      refine ⟨by simp, ?_, by simp⟩
+      constructor
+      · rintro ⟨t, ht⟩; cases ht
+      · rintro ⟨x', y', z', he, hn⟩
+        injection he with he; injection he with h1 he; injection he with h2 h3
+        subst h2; rw [hv] at hn; cases hn
+    | none =>
+      refine ⟨by simp, ?_, by simp⟩
+      constructor
+      · intro _; exact ⟨x, y, z, rfl, hv⟩
+      · intro _; exact ⟨_, rfl⟩
+
+/-! ## flags and options: the first occurrence of the name is taken (and, for an option, the element after it) -/
+
+/-- `use_flag`: nothing is taken iff no element equals the flag; otherwise the **first** element equal to it is removed
+and nothing else changes -/
+theorem use_flag_spec (name : String) (sh : Bool) (st : List Arg) :
+    (useFlag name sh st = none ↔ ∀ a ∈ st, a.2 ≠ flagName name sh) ∧
+    (∀ y st', useFlag name sh st = some (y, st') ↔
+      ∃ x z, st = x ++ y :: z ∧ st' = x ++ z ∧ y.2 = flagName name sh ∧ ∀ a ∈ x, a.2 ≠ flagName name sh) :=
+  ⟨useFlag_none_iff name sh st, fun y st' => useFlag_some_iff name sh st st' y⟩
+
+/-- `use_option`: not found iff no element equals the name; "missing argument" iff its first occurrence is the last
+element; otherwise the first occurrence **and the element right after it** (the value, whatever it looks like) are removed -/
+theorem use_option_spec (name : String) (sh : Bool) (st : List Arg) :
+    (useOption name sh st = .notFound ↔ ∀ a ∈ st, a.2 ≠ flagName name sh) ∧
+    (useOption name sh st = .missingArgument ↔
+      ∃ x y, st = x ++ [y] ∧ y.2 = flagName name sh ∧ ∀ a ∈ x, a.2 ≠ flagName name sh) ∧
+    (∀ n v st', useOption name sh st = .found n v st' ↔
+      ∃ x z, st = x ++ n :: v :: z ∧ st' = x ++ z ∧ n.2 = flagName name sh ∧ ∀ a ∈ x, a.2 ≠ flagName name sh) :=
+  ⟨useOption_notFound_iff name sh st, useOption_missing_iff name sh st, fun n v st' => useOption_found_iff name sh st st' n v⟩
+
+/-! ## names: the sets behind `flag_names()` / `option_names()` and the `parse_context` -/
+
+/-- `operator<` of `option_name` (by name, then long before short) is a strict total order and `operator==` is its
+equivalence: what the `std::set<option_name>` of a `parse_context` needs for `contains` to mean membership -/
+theorem option_name_order_strict_total (a b c : String × Bool) :
+    optLt a a = false ∧ (optLt a b = true → optLt b a = false) ∧ (optLt a b = true → optLt b c = true → optLt a c = true) ∧
+      (a ≠ b → optLt a b = false → optLt b a = true) ∧ (a = b ↔ optLt a b = false ∧ optLt b a = false) :=
+  ⟨optLt_irrefl a, optLt_asymm, optLt_trans, optLt_total, optLt_eq_iff a b⟩
+
+/-- the name sets have exactly the members of the name lists the interpreter looks names up in -/
+theorem name_sets_members (p : OP) (n : String) (o : String × Bool) :
+    (n ∈ p.flagNameSet ↔ n ∈ p.flagNames) ∧ (o ∈ p.optionNameSet ↔ o ∈ p.optionNames) :=
+  ⟨mem_toSet _ _ _, mem_toSet _ _ _⟩
+
+/-- names handed upwards: `optional` / `many` pass their parser's names on, product and sum hand on both sides',
+`commands` hands on nothing (its sub-command parsers get their own names as context, see `commands_unfold`) -/
+theorem names_handed_upwards (q a b : OP) (l : String) (c : OP) (subs : Subs) :
+    (OP.optional q).optionNames = q.optionNames ∧ (OP.many q).optionNames = q.optionNames ∧
+    (OP.prod a b).optionNames = a.optionNames ++ b.optionNames ∧ (OP.sum l a b).optionNames = a.optionNames ++ b.optionNames ∧
+    (OP.commands c subs).optionNames = [] ∧
+    (OP.optional q).flagNames = q.flagNames ∧ (OP.many q).flagNames = q.flagNames ∧
+    (OP.prod a b).flagNames = a.flagNames ++ b.flagNames ∧ (OP.sum l a b).flagNames = a.flagNames ++ b.flagNames ∧
+    (OP.commands c subs).flagNames = [] := by
+  simp [OP.optionNames, OP.flagNames]
+
+/-- **`commands::parse`**: the vector is split at the first positional argument w.r.t. the *common* parser's option names;
+the common parser must consume everything in front of it (`parse_to_empty`, any failure becomes an `other_error` with the
+same text); the selected sub-command's parser runs on what follows **with its own option names as context** (not the
+caller's and not the common parser's) and its leftover state is the result's state -/
+theorem commands_unfold (f : Nat) (common : OP) (subs : Subs) (st : List Arg) (c : Ctx) :
+    parse (f + 1) (.commands common subs) st c =
+      match splitNext st common.optionNames with
+      | none => .error (.missing st ("No command specified from " ++ showList (subs.map Prod.fst)))
+      | some (first, name, second) =>
+        match findSub name.2 subs with
+        | none => .error (.other ("Invalid command " ++ name.2))
+        | some (tag, q) =>
+          match parse f common first common.optionNames with
+          | .error .diverge => .error .diverge
+          | .error e => .error (.other e.msg)
+          | .ok (rest, ro, lgo) =>
+            if !rest.isEmpty then .error (.other (leftoverText rest))
+            else match parse f q second q.optionNames with
+              | .error e => .error e
+              | .ok (st', rq, lgq) =>
+                .ok (st', [("options", .recd ro), ("sub", .recd [(tag, .recd rq)])], lgo ++ (name.1, "cmd") :: lgq) :=
+  parse_commands_eq f common subs st c
+
+/-- what `options::parse` says when arguments are left over: exactly the unconsumed ones, in order -/
+theorem parseTop_leftover {f : Nat} {p : OP} {args : List String} {st' : List Arg} {r : Rec} {lg : Log}
+    (h : parse f p (index args) p.optionNames = .ok (st', r, lg)) (hne : st' ≠ []) :
+    parseTop f p args = .error (.error ("Leftover arguments " ++ showList (st'.map Prod.snd))) := by
+  unfold parseTop parseToEmpty
+  rw [h]
+  cases st' with
+  | nil => exact absurd rfl hne
+  | cons a b => rfl
 
 /-! ## the help wrapper -/
 
-/-- `parse_help` with a long-name-only help switch (`default_help_switch`) answers with the help text **iff** the
-argument vector is exactly `[--<long>]`: the switch "and nothing else" (with anything else the sum's left branch
-leaves a leftover, which `parse_to_empty` reports as an error) -/
+/-- **`parse_help`, any help switch** (with or without a short name): the answer is the help text iff the argument
+vector is exactly the switch — `[--<long>]` or `[-<short>]`.  In particular `--help -h`, `-h x` or `x --help` never
+give the help text. -/
+theorem help_only_alone_any (f : Nat) (hsh : Option String) (hlg : String) (p : OP) (args : List String) :
+    (∃ x, parseHelp (f + 2) hsh hlg p args = .ok x ∧ x.isHelp = true) ↔
+      args = [flagName hlg false] ∨ ∃ s, hsh = some s ∧ args = [flagName s true] :=
+  parseHelp_help_iff_any f hsh hlg p args
+
+/-- the special case of `default_help_switch()` (no short name): only `[--help]` -/
 theorem help_only_alone (f : Nat) (hlg : String) (p : OP) (args : List String) :
-    (∃ x, parseHelp (f + 2) none hlg p args = .ok x ∧ (match x with | .help => True | .result .. => False)) ↔
-      args = [flagName hlg false] := parseHelp_help_iff f hlg p args
+    (∃ x, parseHelp (f + 2) none hlg p args = .ok x ∧ x.isHelp = true) ↔ args = [flagName hlg false] := by
+  rw [parseHelp_help_iff_any]
+  simp
+
+/-- the help text `parse_help` returns is the usage string of the wrapped parser (not of the sum it builds) -/
+theorem help_text_is_usage {g : Nat} {hsh : Option String} {hlg : String} {p : OP} {args : List String} {t : String}
+    (h : parseHelp g hsh hlg p args = .ok (.help t)) : t = p.usage := by
+  unfold parseHelp at h
+  split at h
+  · cases h
+  · injection h with h; injection h with h; exact h.symm
+  · cases h
+  · cases h
+
+example : parseHelp 9 (some "h") "help" (.arg "a" .str "file" none) ["-h"] = .ok (.help "file : string") := by rfl
+example : ∃ m, parseHelp 9 (some "h") "help" (.arg "a" .str "file" none) ["-h", "--help"] = .error (.error m) := ⟨_, rfl⟩
 
 /-! ## definitions -/
 
@@ -233,9 +377,13 @@ value type, disjoint names in products, distinct sub-command names), everywhere 
 theorem construct_ok_iff_wellformed (p : OP) : construct p = .ok () ↔ p.WellFormed := construct_iff p
 
 /-- the defect repaired by 986d19b as a regression example: `flag<L, std::string>` with distinct values constructs -/
-example : construct (.flag "a" none "mode" (.str "yes") (.str "no")) = .ok () := by rfl
-example : construct (.flag "a" none "mode" (.str "same") (.str "same")) = .error .optionsException := by rfl
-example : construct (.prod (OP.switch "a" none "f") (.opt "b" none "f" none .int)) = .error .duplicateNames := by rfl
+example : construct (.flag "a" none "mode" (.str "yes") (.str "no") none) = .ok () := by rfl
+example : construct (.flag "a" none "mode" (.str "same") (.str "same") none) =
+    .error ⟨.optionsException, "fcppt::options: The active and the inactive value must be different: same"⟩ := by rfl
+example : construct (.prod (OP.switch "a" none "f") (.opt "b" none "f" none .int none)) =
+    .error ⟨.duplicateNames, "fcppt::options: The following names appear multiple times in a product parser: [f]"⟩ := by
+  simp [construct, checkShortLong, OP.switch, OP.allNames, OP.flagNames, OP.optionNames, commonNames, toSet, insertSet, showList,
+    excText, bind, Except.bind, Val.beqBase]
 
 /-! ## termination -/
 
@@ -263,13 +411,108 @@ theorem consuming_shrinks {f : Nat} {p : OP} {st : List Arg} {c : Ctx} {st' : Li
 theorem many_diverges_example (f : Nat) : parse f (.many (OP.switch "a" none "f")) [] [] = .error .diverge :=
   many_switch_diverges f
 
+/-! ## the fuel is only a termination device -/
+
+/-- **fuel monotonicity**: a result other than `diverge` is the result for every larger fuel -/
+theorem parse_fuel_monotone {f g : Nat} {p : OP} {st : List Arg} {c : Ctx} (hfg : f ≤ g)
+    (h : parse f p st c ≠ .error .diverge) : parse g p st c = parse f p st c := parse_fuel_le hfg h
+
+/-- two fuels that are both enough give the same result: the model defines one result per (parser, state, context) -/
+theorem parse_fuel_irrelevant {f g : Nat} {p : OP} {st : List Arg} {c : Ctx}
+    (hf : parse f p st c ≠ .error .diverge) (hg : parse g p st c ≠ .error .diverge) : parse f p st c = parse g p st c := by
+  rcases Nat.le_total f g with h | h
+  · exact (parse_fuel_le h hf).symm
+  · exact parse_fuel_le h hg
+
+/-- the same for `fcppt::options::parse` -/
+theorem parseTop_fuel_monotone {f g : Nat} {p : OP} {args : List String} (hfg : f ≤ g)
+    (h : parseTop f p args ≠ .error .diverge) : parseTop g p args = parseTop f p args := by
+  unfold parseTop parseToEmpty at h ⊢
+  have hp : parse f p (index args) p.optionNames ≠ .error .diverge := by
+    intro hd; rw [hd] at h; exact h rfl
+  rw [parse_fuel_le hfg hp]
+
+/-- what the driver computes with its fuel is the result for every larger fuel (shapes without a bad `many`) -/
+theorem driver_fuel_is_enough {p : OP} {args : List String} (hw : p.wfMany = true) {g : Nat}
+    (hg : fuelFor p args.length ≤ g) : parseTop g p args = parseTop (fuelFor p args.length) p args :=
+  parseTop_fuel_monotone hg (parseTop_terminates hw)
+
+/-! ## the indices are bookkeeping only -/
+
+/-- **the control flow never looks at an index**: two states with the same texts give the same result up to the indices
+(`zeroRes` sets every index in the remaining state, in the state of a `missing_error` and in the log to 0) — same record,
+same error kind and text, same texts left over, same leaf labels in the log.  This is what makes the accounting theorems
+statements about the C++, which has no indices. -/
+theorem parse_ignores_indices (f : Nat) (p : OP) (s1 s2 : List Arg) (c : Ctx) (h : s1.map Prod.snd = s2.map Prod.snd) :
+    zeroRes (parse f p s1 c) = zeroRes (parse f p s2 c) :=
+  parse_zero f p s1 s2 c ((zero_eq_iff s1 s2).mpr h)
+
+/-- … spelled out for a success -/
+theorem parse_ignores_indices_ok {f : Nat} {p : OP} {s1 s2 : List Arg} {c : Ctx} {t1 : List Arg} {r : Rec} {l1 : Log}
+    (h : s1.map Prod.snd = s2.map Prod.snd) (h1 : parse f p s1 c = .ok (t1, r, l1)) :
+    ∃ t2 l2, parse f p s2 c = .ok (t2, r, l2) ∧ t1.map Prod.snd = t2.map Prod.snd ∧ l1.map Prod.snd = l2.map Prod.snd := by
+  have hz := parse_ignores_indices f p s1 s2 c h
+  rcases zeroRes_cases hz with ⟨u1, r', m1, u2, m2, hA, hB, hu, hm⟩ | ⟨e1, e2, hA, _, _⟩
+  · rw [h1] at hA
+    injection hA with hA; injection hA with a1 hA; injection hA with a2 a3
+    subst a1 a2 a3
+    refine ⟨u2, m2, hB, (zero_eq_iff _ _).mp hu, ?_⟩
+    have := congrArg (List.map Prod.snd) hm
+    simpa [zeroLog, List.map_map, Function.comp_def] using this
+  · rw [h1] at hA; cases hA
+
+/-! ## records -/
+
+/-- **the record of a successful parse has exactly the labels of the parser's result type, in order**
+(`OP.labels` = labels of `result_of<Parser>`): no field is lost or doubled by `many`'s zipping, `optional`'s mapping,
+the concatenation of a product -/
+theorem parse_result_labels {f : Nat} {p : OP} {st : List Arg} {c : Ctx} {st' : List Arg} {r : Rec} {lg : Log}
+    (h : parse f p st c = .ok (st', r, lg)) : r.map Prod.fst = p.labels := parse_labels f p st c h
+
+theorem parseTop_result_labels {f : Nat} {p : OP} {args : List String} {r : Rec} {lg : Log}
+    (h : parseTop f p args = .ok (r, lg)) : r.map Prod.fst = p.labels := by
+  unfold parseTop parseToEmpty at h
+  split at h
+  · cases h
+  · cases h
+  · rename_i st' r' lg' hp
+    split at h
+    · injection h with h; injection h with h1 h2; subst h1
+      exact parse_labels _ _ _ _ hp
+    · cases h
+
+/-- `many`: every field of the result is a vector and all vectors have the same length (the number of iterations) -/
+theorem many_fields_are_vectors_of_one_length {f : Nat} {q : OP} {st : List Arg} {c : Ctx} {st' : List Arg} {r : Rec} {lg : Log}
+    (h : parse f (.many q) st c = .ok (st', r, lg)) : ∃ k, ∀ x ∈ r, ∃ vs, x.2 = Val.list vs ∧ vs.length = k :=
+  many_all_lists f q st c h
+
+/-- `optional`: either every field is absent or every field is present -/
+theorem optional_fields_all_or_nothing {f : Nat} {q : OP} {st : List Arg} {c : Ctx} {st' : List Arg} {r : Rec} {lg : Log}
+    (h : parse (f + 1) (.optional q) st c = .ok (st', r, lg)) :
+    (∀ x ∈ r, x.2 = Val.none) ∨ (∀ x ∈ r, ∃ v, x.2 = Val.some v) := optional_all_or_nothing h
+
 /-! ## non-vacuity -/
 
-example : parseTop 20 (.prod (.opt "a" none "o" none .int) (.arg "b" .str)) ["x", "--o", "5"] =
+example : parseTop 20 (.prod (.opt "a" none "o" none .int none) (.arg "b" .str "b_arg" none)) ["x", "--o", "5"] =
     .ok ([("a", .int 5), ("b", .str "x")], [(1, "a"), (2, "a"), (0, "b")]) := by rfl
-example : (OP.many (.prod (.unitSwitch "a" none "k") (.arg "b" .int))).wfMany = true := by rfl
-example : (OP.commands (.unit "a") [("go", "x", .arg "b" .int)]).WellFormed := by
+example : (OP.many (.prod (.unitSwitch "a" none "k") (.arg "b" .int "b_arg" none))).wfMany = true := by rfl
+example : (OP.commands (.unit "a") [("go", "x", none, .arg "b" .int "b_arg" none)]).WellFormed := by
   simp [OP.WellFormed, WellFormedSubs]
 example : splitNext [(0, "--o"), (1, "5"), (2, "-v"), (3, "x")] [("o", false)] = some ([(0, "--o"), (1, "5"), (2, "-v")], (3, "x"), []) := by rfl
+
+/-- `use_option` takes the first occurrence and the element after it, whatever it looks like -/
+example : useOption "o" false [(0, "x"), (1, "--o"), (2, "--o"), (3, "5")] = .found (1, "--o") (2, "--o") [(0, "x"), (3, "5")] := by rfl
+/-- same texts, different indices: same record, same texts left over -/
+example : zeroRes (parse 5 (.arg "a" .int "n" none) [(7, "--o"), (3, "5"), (9, "x")] [("o", false)]) =
+    zeroRes (parse 5 (.arg "a" .int "n" none) [(0, "--o"), (1, "5"), (2, "x")] [("o", false)]) := by rfl
+/-- usage of a commands parser with help texts -/
+example : (OP.commands (OP.switch "a" (some "v") "verbose" (some "be loud"))
+      [("run", "x", some "runs", .many (.arg "b" .str "file" none)), ("stop", "y", none, .unit "c")]).usage =
+    "[ --verbose|-v ] - be loud\n  run:  (runs)  \n    [ file : string ]*\n  stop:   \n  " := by rfl
+/-- the text `options::parse` returns for a leftover, and for two failing alternatives of a sum -/
+example : parseTop 9 (.arg "a" .int "n" none) ["5", "x"] = .error (.error "Leftover arguments [x]") := by rfl
+example : parseTop 9 (.sum "s" (.unitSwitch "a" none "k") (.arg "b" .int "n" none)) [] =
+    .error (.error "  Missing flag --k.\n|\n  Missing argument \"n\".") := by rfl
+example : (OP.many (.prod (.arg "a" .int "n" none) (.arg "b" .str "m" none))).labels = ["a", "b"] := by rfl
 
 end Fcppt.C03
